@@ -61,7 +61,7 @@ CHECKS = {
             "Saturation zone (results >= 2^255) excluded from the clamp oracle only; bounds L and parameter sets as reported.", "3/C13"),
     "C14": ("E2", "exploration",
             "bounded exhaustive enumeration of policy trees x witness vectors x lock neighbourhoods against an independent recursive evaluator and an independent address derivation",
-            "All policy trees of the enumerated strata (every leaf kind and every unlock-conditions root; every threshold shape within the stated arity/depth/node budgets, every N in 0..arity+1) x every signature / preimage vector of every length 0..(consuming leaves+1) x heights h-1,h,h+1 and median times t-1s,t,t+1s: Verify agrees with the independent evaluator (accept/reject only); Address is invariant under every opaque substitution of sub-policies and a needed child made opaque turns acceptance into rejection; bit-flipped witnesses reject; complexity limits (255/256 children, 1024/1025 sub-policies, decode depth limit and limit+1) reject at limit+1 only; fast-path standard addresses equal the generic derivations and a naive Merkle root.",
+            "All policy trees of the enumerated strata (every leaf kind and every unlock-conditions root; every threshold shape within the stated arity/depth/node budgets, every N in 0..arity+1) x every signature / preimage vector of every length 0..(consuming leaves+1) x heights h-1,h,h+1 and median times t-1s,t,t+1s, plus every ordered (lock, height) pair of a 19-value uint64 boundary set and (instant, median) pair of 14 instants (years 0..9999) in four embeddings and as unlock-conditions timelock: Verify agrees with the independent evaluator (accept/reject only); Address is invariant under every opaque substitution of sub-policies and a needed child made opaque turns acceptance into rejection; bit-flipped witnesses reject; complexity limits (255/256 children, 1024/1025 sub-policies, decode depth limit and limit+1) reject at limit+1 only; fast-path standard addresses equal the generic derivations and a naive Merkle root.",
             "Nested trees are exhaustive only within explicit node budgets / reduced alphabets (reported in evidence; exhaustive=false is therefore always set, `stated_space_completed` says whether the described space was finished). Cases where the statement is silent (unreached entropy keys) are counted, not asserted.", "3/C14"),
     "C15": ("E2", "exploration",
             "bounded exhaustive enumeration (all ordered pairs of a boundary set x all operations) against math/big",
